@@ -92,12 +92,9 @@ def run_purity(shard, tier, res, mod):
                 d1 = dict({'time': list(range(len(traces[i][vs[0]])))}, **{v: list(traces[i][v]) for v in vs})
                 d2 = dict({'time': list(range(len(traces[j][vs[0]])))}, **{v: list(traces[j][v]) for v in vs})
                 s2 = impl.build('dt_off', text, vs)
-                r1 = impl.outcome(s2.evaluate, copy.deepcopy(d1))
-                impl.outcome(s2.evaluate, copy.deepcopy(d2))
-                r3 = impl.outcome(s2.evaluate, copy.deepcopy(d1))
-                if explore.snapshot(r1) != explore.snapshot(r3):
-                    res.violation(mod, {'mode': 'repeat', 'formula': fj, 'spec': text, 'vars': vs, 'd1': d1, 'd2': d2},
-                                  'evaluate(d1) returned %r, after evaluate(d2) the same object returns %r for d1' % (r1[1], r3[1]))
+                msg = repeat_case(s2, d1, d2, scribble=(i + j) % 2 == 0)
+                if msg:
+                    res.violation(mod, {'mode': 'repeat', 'formula': fj, 'spec': text, 'vars': vs, 'd1': d1, 'd2': d2, 'scribble': (i + j) % 2 == 0}, msg)
                     res.outcomes['not repeatable'] += 1
                 else:
                     res.outcomes['repeatable'] += 1
@@ -149,18 +146,46 @@ def run_purity(shard, tier, res, mod):
                         a2 = [[v, [[t, x] for t, x in sigs[j][v]]] for v in vs]
                         s2 = impl.build('ct_off', text, vs)
                         res.evaluations += 1
-                        r1 = impl.outcome(s2.evaluate, *copy.deepcopy(a1))
-                        impl.outcome(s2.evaluate, *copy.deepcopy(a2))
-                        r3 = impl.outcome(s2.evaluate, *copy.deepcopy(a1))
-                        if explore.snapshot(r1) != explore.snapshot(r3):
-                            res.violation(mod, {'mode': 'repeat_dense', 'formula': fj, 'spec': text, 'vars': vs, 'd1': a1, 'd2': a2},
-                                          'dense evaluate(d1) returned %r, after evaluate(d2) the same object returns %r for d1' % (r1[1], r3[1]))
+                        msg = repeat_case(s2, a1, a2, (i + j) % 2 == 0, star=True)
+                        if msg:
+                            res.violation(mod, {'mode': 'repeat_dense', 'formula': fj, 'spec': text, 'vars': vs, 'd1': a1, 'd2': a2, 'scribble': (i + j) % 2 == 0},
+                                          'dense ' + msg)
                             res.outcomes['not repeatable'] += 1
                         else:
                             res.outcomes['repeatable'] += 1
                             res.nontrivial += 1
         res.digest(text)
     res.sample({'spec': 'out = always[0,5] x', 'data': {'time': [0, 1], 'x': [-1.0, 2.0]}, 'check': 'data set unchanged after evaluate(); d1,d2,d1 repeatable'}, 1)
+
+
+def scribble_on(x):
+    """the caller owns what evaluate() returned: overwrite every number in it and append garbage"""
+    if isinstance(x, list):
+        for i in range(len(x)):
+            if isinstance(x[i], list):
+                scribble_on(x[i])
+            else:
+                x[i] = 99.0
+        x.append([99.0, 99.0])
+
+
+def repeat_case(spec, d1, d2, scribble, star=False):
+    """evaluate(d1), evaluate(d2), evaluate(d1) on one object: the third result equals the first; the first result, still held by the caller,
+    is not changed by the later calls; and (scribble) whatever the caller does to the returned lists has no influence on later evaluations"""
+    ev = (lambda d: impl.outcome(spec.evaluate, *copy.deepcopy(d))) if star else (lambda d: impl.outcome(spec.evaluate, copy.deepcopy(d)))
+    r1 = ev(d1)
+    s1 = explore.snapshot(r1)
+    r2 = ev(d2)
+    if explore.snapshot(r1) != s1:
+        return 'the result of evaluate(d1) that the caller still holds changed from %r to %r during evaluate(d2) on the same object' % (s1, r1[1])
+    if scribble and r1[0] == 'ok' and r2[0] == 'ok':
+        scribble_on(r1[1])
+        scribble_on(r2[1])
+    r3 = ev(d1)
+    if explore.snapshot(r3) != s1:
+        return 'evaluate(d1) returned %r, after evaluate(d2)%s the same object returns %r for d1' % (
+            s1, ' (and after the caller overwrote the lists that were returned to it)' if scribble else '', r3[1])
+    return None
 
 
 # ------------------------------------------------------------------------------------------- (c) isolation
@@ -424,16 +449,12 @@ def replay(case):
         return [] if same_data(d, case['data']) else ['evaluate() modified the caller\'s data set: %r became %r' % (case['data'], d)]
     if mode == 'repeat_dense':
         s2 = impl.build('ct_off', case['spec'], case['vars'])
-        r1 = impl.outcome(s2.evaluate, *copy.deepcopy(case['d1']))
-        impl.outcome(s2.evaluate, *copy.deepcopy(case['d2']))
-        r3 = impl.outcome(s2.evaluate, *copy.deepcopy(case['d1']))
-        return [] if explore.snapshot(r1) == explore.snapshot(r3) else ['dense evaluate(d1) %r, after evaluate(d2): %r' % (r1, r3)]
+        m = repeat_case(s2, case['d1'], case['d2'], case.get('scribble', False), star=True)
+        return ['dense ' + m] if m else []
     if mode == 'repeat':
         s2 = impl.build('dt_off', case['spec'], case['vars'])
-        r1 = impl.outcome(s2.evaluate, copy.deepcopy(case['d1']))
-        impl.outcome(s2.evaluate, copy.deepcopy(case['d2']))
-        r3 = impl.outcome(s2.evaluate, copy.deepcopy(case['d1']))
-        return [] if explore.snapshot(r1) == explore.snapshot(r3) else ['evaluate(d1) %r, after evaluate(d2): %r' % (r1, r3)]
+        m = repeat_case(s2, case['d1'], case['d2'], case.get('scribble', False))
+        return [m] if m else []
     if mode == 'hashseed':
         a, ao = run_workload(0)
         b, bo = run_workload(case['seed'])
